@@ -31,6 +31,12 @@ Oracle (API boundary unless stated):
   (nothing can ever call doWrite again), connectionLost must already have been delivered;
 * conservation (internal, DESIGN C14): len(dataBuffer) - offset + _tempDataLen == written - accepted.
 
+writeSequence gets lists, tuples, iterators and generators; a list argument is afterwards mutated by
+the caller (cleared, appended to, element replaced/removed - at once, after the next write() or
+just before the next doWrite) or is ONE list object the caller keeps refilling and resending: the
+bytes written are those in the list at the time of the call, whatever the caller does to its own
+list later.
+
 Guards (latitude the code legitimately has): writes after loseConnection() but before the close are
 accepted (only "everything before loseConnection" is required at close); a streaming, un-paused
 producer does not delay the close; a producer registered on an already full buffer is only paused
@@ -56,7 +62,7 @@ SHARDS = {"quick": 4, "thorough": 16}
 FLOORS = {"doWrite_calls": 5000, "partial_accepts": 300, "zero_accepts": 100, "bytes_accepted": 1000000, "orderly_closes": 50,
           "pause_checks": 100, "drain_resume_checks": 100, "halfclose_checks": 20, "closes_deferred_for_pull_producer": 10,
           "closes_with_data_written_before_loseconnection": 30, "histories_with_big_buffer": 20,
-          "halfclose_close_scripts": 100, "closes_while_halfclose_pending": 30}
+          "halfclose_close_scripts": 100, "closes_while_halfclose_pending": 30, "caller_list_mutations": 500}
 READY = True
 
 import os
@@ -120,6 +126,9 @@ def make_world(ctx, rng, case):
     w.stats = {"partial": 0, "zero": 0, "dowrite": 0}
     w.plan_accept = None
     w.stopped = False
+    w.caller_buf = []  # the caller's reusable output list for writeSequence
+    w.caller_own = 0
+    w.deferred_mut = []
 
     def violation(key, what, fatal=True, **extra):
         wit = {"case": case, "c0": w.c0, "ops_tail": w.log[-60:], "n_ops": len(w.log), "written": w.cursor - w.c0,
@@ -310,6 +319,7 @@ def make_world(ctx, rng, case):
         data, live = accounted(n, label)
         w.log.append([label, len(data)])
         fd.write(data)
+        run_deferred("after_next_write")
         after_write(len(data) if live else 0, label)
 
     def do_write_sequence(sizes, container, label="writeSequence"):
@@ -321,8 +331,29 @@ def make_world(ctx, rng, case):
         total = sum(map(len, chunks))
         w.log.append([label, [len(c) for c in chunks], container])
         before = _real_outstanding()
-        arg = {"list": chunks, "tuple": tuple(chunks), "iter": iter(chunks), "gen": (c for c in chunks)}[container]
+        if container == "reused-list":
+            # the caller keeps ONE list object as its output buffer: it removes what it put there
+            # last time and refills it (whatever else is in it - nothing, for a correct transport -
+            # gets sent again)
+            buf = w.caller_buf
+            del buf[:w.caller_own]
+            buf.extend(chunks)
+            w.caller_own = len(chunks)
+            arg = buf
+        else:
+            arg = {"list": chunks, "tuple": tuple(chunks), "iter": iter(chunks), "gen": (c for c in chunks)}[container]
         fd.writeSequence(arg)
+        if container in ("list", "reused-list") and rng.random() < 0.6:
+            # afterwards the caller does what it likes with ITS list: the bytes written are those
+            # that were in it at the time of the call
+            how = rng.choice(["clear", "append", "replace", "pop"])
+            when = rng.choice(["now", "now", "after_next_write", "before_next_dowrite"])
+            w.log.append(["caller-list", how, when])
+            ctx.count("caller_list_mutations")
+            if when == "now":
+                mutate_caller_list(arg, how)
+            else:
+                w.deferred_mut.append((when, arg, how))
         if container in ("iter", "gen") and live and total and _real_outstanding() == before:
             # causal signature of the one-shot-iterable defect: a connected descriptor took nothing
             w.violation("writesequence-one-shot-iterable-dropped", "writeSequence(iterator/generator of bytes) silently dropped all the data "
@@ -332,6 +363,28 @@ def make_world(ctx, rng, case):
             w.expect_end = w.cursor
             total = 0
         after_write(total if live else 0, label)
+
+    def mutate_caller_list(lst, how):
+        junk = b"\xa5" * rng.choice([1, 7, 300])
+        if how == "clear":
+            del lst[:]
+        elif how == "append":
+            lst.append(junk)
+        elif how == "replace" and lst:
+            lst[rng.randrange(len(lst))] = junk
+        elif how == "pop" and lst:
+            lst.pop(rng.randrange(len(lst)))
+        if lst is w.caller_buf:
+            w.caller_own = 0 if how == "clear" else len(lst)  # the caller knows what it did to its own buffer
+
+    def run_deferred(when):
+        keep = []
+        for item in w.deferred_mut:
+            if item[0] == when:
+                mutate_caller_list(item[1], item[2])
+            else:
+                keep.append(item)
+        w.deferred_mut[:] = keep
 
     def _real_outstanding():
         return len(fd.dataBuffer) - fd.offset + fd._tempDataLen
@@ -388,6 +441,8 @@ def make_world(ctx, rng, case):
         """One write-readiness notification, handled as PosixReactorBase._doReadOrWrite does."""
         if fd not in reactor.writers:
             return False
+        run_deferred("after_next_write")
+        run_deferred("before_next_dowrite")
         w.stats["dowrite"] += 1
         ctx.count("doWrite_calls")
         w.plan_accept = how
@@ -446,7 +501,7 @@ def run_case(ctx, case):
                 if step[0] == "write":
                     ops["write"](step[1])
                 elif step[0] == "ws":
-                    ops["writeSequence"](step[1], "list")
+                    ops["writeSequence"](step[1], rng.choice(["list", "reused-list"]))
                 elif step[0] == "doWrite":
                     ops["doWrite"](step[1])
                 else:
@@ -473,7 +528,7 @@ def run_case(ctx, case):
                 k = rng.choice([0, 1, 2, 3, 6])
                 sizes = [rng.choice([0, ops["pick_size"]() // rng.choice([1, 4, 16])]) for _ in range(k)]
                 c = rng.random()
-                container = "list" if c > 0.2 else "tuple" if c > 2 * one_shot_p else "iter" if c > one_shot_p else "gen"
+                container = "list" if c > 0.55 else "reused-list" if c > 0.2 else "tuple" if c > 2 * one_shot_p else "iter" if c > one_shot_p else "gen"
                 ops["writeSequence"](sizes, container)
             elif r < 0.70:
                 how = rng.choice(["all", "all", "zero", "one", "allbut1", "half", rng.randint(0, 200000), rng.randint(0, 3000), fd.SEND_LIMIT])
